@@ -98,13 +98,29 @@ def pool():
     return _pool
 
 
+SEC_STATUS = {}   # how the model obtained the secondary peak lists of the RUN lines it was given
+
+
+def _strip_status(o):
+    """`RUN` with the secondary stage in the model ends with ` ST=derived:a,reordered:b,ambiguous:c,MISMATCH:d`
+    (model-only statistics; a mismatch is also visible in the SEC= field, which IS compared)"""
+    i = o.rfind(" ST=")
+    if i < 0:
+        return o
+    for t in o[i + 4:].split(","):
+        k, _, v = t.partition(":")
+        if v.isdigit():
+            SEC_STATUS[k] = SEC_STATUS.get(k, 0) + int(v)
+    return o[:i]
+
+
 def run_model(lines):
     if not lines:
         return []
     if len(lines) < 2000:
-        return _model_chunk(lines)
+        return [_strip_status(o) for o in _model_chunk(lines)]
     outs = list(pool().map(_model_chunk, _chunks(lines, NCPU)))
-    return [x for o in outs for x in o]
+    return [_strip_status(x) for o in outs for x in o]
 
 
 def run_real(lines):
